@@ -25,7 +25,7 @@ ASSUMPTIONS = [
 BUDGET = {"quick": 70, "thorough": 800}
 ROUNDS = {"thorough": 10}
 FLOORS = {"overlay.C06.judged": {"quick": 100, "thorough": 1500}, "overlay.C06.branch_lengths_judged": {"quick": 100, "thorough": 1500}, "validity_checks": {"quick": 1500, "thorough": 15000}, "round_trips_single": 300, "round_trips_batched": 300,
-          "moves": 200, "moves_smooth_max": 20, "heterochronous": 300}
+          "moves": 200, "moves_smooth_max": 20, "api_inplace_updates": 100, "float32_default_checks": 40, "postorder_option_checks": 20, "heterochronous": 300}
 
 
 def EXHAUSTIVE(tier):
@@ -54,6 +54,8 @@ def _cases(tier, seed):
             c["move"] = ["none", "none", "float32", "float64", "cpu"][(j // 3) % 5]
             if j % 41 == 7 and batch == 0:
                 c["postorder_option"] = True
+            elif j % 23 == 5:
+                c["float32_default"] = True
             if c["move"] != "none" and param == "shift" and (j // 15) % 2 == 0:
                 c["smooth_k"] = float(np.round(rng.uniform(2.0, 60.0), 3))
             out.append(c)
@@ -131,6 +133,28 @@ def _run_case(case):
     tag = case["param"]
     if case["dates_mode"] != "iso":
         C["heterochronous"] += 1
+    if case.get("float32_default"):
+        # `torchtree --dtype float32`: everything the library creates itself (sampling times from the dates) is single precision;
+        # tips must still sit at their sampling times to single precision of the *heights* (not of the calendar years)
+        old_dtype = torch.get_default_dtype()
+        torch.set_default_dtype(torch.float32)
+        try:
+            objs, dic = tt.load([phylo.taxa_json(case), gt.tree_json(case)])
+            tree = dic["tree"]
+            nh = tt.as_np(tree.node_heights, "C06:not-a-tensor:" + tag, "node_heights").astype(float)
+        finally:
+            torch.set_default_dtype(old_dtype)
+        want = phylo.tip_heights(case)
+        C["validity_checks"] += 1
+        C["float32_default_checks"] = 1
+        row0 = nh.reshape(-1, nh.shape[-1])[0]
+        span = max(1.0, max(want))
+        root, _ = gt.ref_heights(case, 0 if B else None)
+        for nd in rt.postorder(root):
+            if nd.is_leaf() and abs(row0[nd.idx] - want[nd.leaf]) > 2e-6 * span:
+                V.append(tt.viol("C06:tip-not-at-sampling-time:float32-default", "under a float32 default dtype the tip %s sits at height %.9g, its sampling time is %.9g (tree span %.3g)" % (nd.name, row0[nd.idx], want[nd.leaf], span), case=case))
+                break
+        return {"violations": V, "counters": C, "fingerprint": None, "sample": None}
     if case.get("postorder_option"):
         # the tree models accept `use_postorder_indices`: whatever numbering of the leaves it selects, every tip still has to sit at the
         # sampling time of *its* taxon (taxon of a leaf taken from the library's own tree object, date from the specification by name)
@@ -243,6 +267,30 @@ def _run_case(case):
         name = "tree.shifts" if case["param"] == "shift" else "tree.root_height"
         dic[name].tensor = dic[name].tensor.clone()
         read("after " + mv, tol=1e-5 if mv == "float32" else 0.0)
+    # the same model built through the Python API on one Parameter holding ratios and root height, updated in place and announced
+    # with fire_parameter_changed() - the optimiser protocol (from JSON the model holds a concatenation of two parameters instead)
+    if case["param"] == "ratio" and not B and case["move"] == "none" and not V and n >= 3:
+        import copy
+
+        from torchtree import Parameter
+        from torchtree.evolution.tree_model import ReparameterizedTimeTreeModel
+
+        rr = Parameter("rr", torch.tensor(list(case["ratios"]) + list(np.asarray(case["root_height"]).reshape(-1)), dtype=torch.float64))
+        t2 = ReparameterizedTimeTreeModel("tree.api", tree.tree, dic["taxa"], ratios_root_height=rr)
+        _ = t2.node_heights
+        with torch.no_grad():
+            rr.tensor[:-1] *= 0.9
+            rr.tensor[-1] *= 1.1
+        rr.fire_parameter_changed()
+        case2 = copy.deepcopy(case)
+        case2["ratios"] = [x * 0.9 for x in case["ratios"]]
+        case2["root_height"] = [float(np.asarray(case["root_height"]).reshape(-1)[0]) * 1.1]
+        _, href = gt.ref_heights(case2, None)
+        got = tt.as_np(t2.node_heights, "C06:not-a-tensor:" + tag, "node_heights").astype(float)
+        C["api_inplace_updates"] = 1
+        if got.shape != href.shape or np.abs(got - href).max() > 1e-10 * max(1.0, np.abs(href).max()):
+            V.append(tt.viol("C06:heights-stale-after-in-place-update:api", "model built through the Python API: after an in-place update of the ratios / root height and fire_parameter_changed() the heights are %s, the recursion gives %s" % (
+                got[n:][:4], href[n:][:4]), case=case))
     fp = None
     if case["dates_mode"] != "iso" or n >= 4:
         fp = "%s|%s|%s|%s|%s" % (case["newick"], case["dates_mode"], tag, B, mv)
